@@ -48,6 +48,14 @@ Theorem C02_trace_is_model : forall ab a reads c, fst (feed_tr ab a c reads) = f
 Proof. intros ab a reads c. apply feed_tr_fst. Qed.
 Print Assumptions C02_trace_is_model.
 
+(* ... and its events are exactly what the model's state records: the bytes the
+   I/O side appended to the output (outlog) and the requests it queued, in order *)
+Theorem C02_trace_is_state : forall ab a reads c' t,
+  feed_tr ab a chan_init reads = (COk c', t) ->
+  outlog c' = flat_map ev_out t /\ map (obs ab) (requests c') = flat_map ev_reqs t.
+Proof. intros ab a reads c' t H. exact (feed_trace ab a reads chan_init c' t H). Qed.
+Print Assumptions C02_trace_is_state.
+
 (* C02 for the sequential channel model: for every configuration and any two
    ways of dividing the same byte stream into reads (all 2^(n-1) of them), the
    sequence of events -- "100 Continue sent", "request completed" with every
@@ -65,9 +73,8 @@ Theorem C02_split_vs_whole : forall a reads,
 Proof. exact split_vs_whole. Qed.
 Print Assumptions C02_split_vs_whole.
 
-(* the statement with exact error tags ([obs false]) is false of the code:
-   a chunked body with an invalid size line followed by >= max_request_body_size
-   bytes is a 413 in one read and a 400 byte-wise *)
-Theorem C02_exact_refuted : ~ split_independent_exact.
-Proof. exact split_independent_exact_refuted. Qed.
-Print Assumptions C02_exact_refuted.
+(* The statement with exact error tags ([obs false]), [split_independent_exact] in
+   Proof/SplitExamples.v, is false of the code: a chunked body with an invalid size
+   line followed by >= max_request_body_size bytes is a 413 in one read and a 400
+   byte-wise.  Its refutation [C02_exact_refuted] is in Findings/C02_KF1.v (compiled
+   separately, so that repairing the defect does not break this file). *)
